@@ -16,7 +16,7 @@ from ..seams import SimCrash
 
 KINDS = [('sdo', 6), ('sco', 2), ('marking', 1), ('custom', 2), ('unreg', 3), ('cobs', 1)]
 OPS = ['add', 'get', 'all_versions', 'query_all', 'query_type', 'query_id', 'save_load', 'restart', 'load_into', 'rebuild_memory',
-       'load_single', 'query_ts', 'stray']
+       'load_single', 'query_ts', 'stray', 'chdir']
 FORMS_M = ['single', 'single', 'list', 'bundle_obj', 'bundle_dict']
 FORMS_F = ['single', 'single', 'list', 'bundle_obj', 'bundle_dict', 'text', 'bundle_text']
 
@@ -56,12 +56,13 @@ class C11(Profile):
             'spelling_knob': rng.random() < 0.3,
             'mtime_gran': rng.choice([1, 1, 4, 0]),
             'early_parse': rng.random() < 0.3,
+            'rel_path': rng.random() < 0.25,
         }
         n_ids = rng.randrange(2, 13)
         pool = SW.gen_pool(rng, index, n_ids, rng.choice([1, 2, 3, 5]), KINDS, digits_mixed=cfg['spelling_knob'],
                            upper_ids=rng.choice([0, 0, 0.3, 1.0]))
         kinds = U.swarm_weights(rng, OPS, keep=0.8, must=('add',))
-        kinds = [(k, w * (4 if k == 'add' else 1) * (0.3 if k in ('save_load', 'restart', 'load_into', 'rebuild_memory', 'load_single', 'stray') else 1)) for k, w in kinds]
+        kinds = [(k, w * (4 if k == 'add' else 1) * (0.3 if k in ('save_load', 'restart', 'load_into', 'rebuild_memory', 'load_single', 'stray', 'chdir') else 1)) for k, w in kinds]
         ops = []
         nops = rng.randrange(5, 41)
         for _ in range(nops):
@@ -96,6 +97,8 @@ class C11(Profile):
                               prop=rng.choice(['modified', 'modified', 'created']))
                 if faults and op['store'] == 'F' and rng.random() < 0.3:
                     op['fault'] = SW.gen_fault(rng, SW.READ_FAULTS)
+            elif kind == 'chdir':
+                op.update(n=rng.randrange(100))
             elif kind == 'stray':
                 op.update(k=rng.randrange(n_ids), n=rng.randrange(100), where=rng.choice(['type', 'type', 'type', 'skeleton', 'root']))
             elif kind == 'query_all':
@@ -166,6 +169,8 @@ class C11(Profile):
                 self.op_repair(sw, world)
             elif kind == 'stray':
                 sw.stray(op['k'], op['n'], op['where'])
+            elif kind == 'chdir':
+                sw.chdir(op['n'])
             if kind != 'repair':
                 self.check_disk(sw, world, op)
 
